@@ -88,8 +88,11 @@ def coq_view(view):
 PRED = """fun '(args, pv, ev, lv) =>
   view_same (view_parser args 0) pv && view_same (view_expander args 1) ev && view_same (view_lua args 1) lv"""
 DEFS = """Open Scope N_scope.
+Definition opt_eqb (x y : option str) : bool :=
+  match x, y with Some a, Some b => str_eqb a b | None, None => true | _, _ => false end.
+(* equality of the two association lists as dicts (the last binding of a key wins) *)
 Definition view_sub (a b : list (key * str)) : bool :=
-  forallb (fun kv => match assoc_last (fst kv) b None with Some v => str_eqb v (snd kv) | None => false end) a.
+  forallb (fun kv => opt_eqb (assoc_last (fst kv) a None) (assoc_last (fst kv) b None)) a.
 Definition view_same (a b : list (key * str)) : bool := view_sub a b && view_sub b a.
 """
 
